@@ -44,7 +44,7 @@ pub fn requirements(tier: Tier) -> Vec<(&'static str, u64)> {
 /// Result of a history as an observer sees it: Ok(accessors, canonical) or Err(name).
 fn outcome<'a, T>(h: &'a Hist, mk: &dyn Fn(&'a str) -> Option<T>) -> Option<Out<(Snap, String)>>
 where
-    T: PurlShape + Clone,
+    T: PurlShape + Clone + crate::exec::Reparse,
     T::Error: Debug,
 {
     let run = run_hist(h, mk)?;
@@ -73,7 +73,7 @@ pub struct Judged {
 
 pub fn judge<'a, T>(h: &'a Hist, typed: bool, mk: &dyn Fn(&'a str) -> Option<T>, commute: bool) -> (Option<Judged>, Option<Fail>)
 where
-    T: PurlShape + Clone + FromStr,
+    T: PurlShape + Clone + FromStr + crate::exec::Reparse,
     <T as PurlShape>::Error: From<<T as FromStr>::Err> + Debug,
 {
     // model
